@@ -79,7 +79,10 @@ StepSet0(st, e) ==
             /\ ~\E t \in ReqToks(st) : t.at = e.node /\ t.occ = e.occ
          THEN {st} ELSE {}
     [] e.ev = "visit"   -> Matching(st, Lab("visit", e.node, 0))
-    [] e.ev = "listening" -> Matching(st, Lab("listening", e.node, 0))
+    [] e.ev = "listening" ->
+         IF Node(st.p, e.node).kind = "boundary"
+         THEN {CloseTau([st EXCEPT !.lstn[e.node] = 1])}   \* armed with (or just before) the host's first activation
+         ELSE Matching(st, Lab("listening", e.node, 0))
     [] e.ev = "deliver"   -> {CloseTau(Deliver(st, e.kind, e.node))}
     [] e.ev = "delivered" -> {CloseTau(Delivered(st, e.kind, e.node))}
     \* an observation at a node where the game has no listener is not an effect
